@@ -27,6 +27,7 @@ package main
 
 import (
 	"fmt"
+	"go/constant"
 	"go/types"
 	"math/big"
 	"sort"
@@ -43,8 +44,11 @@ type Transition struct {
 }
 
 type Audit struct {
-	Kind       string   // "atomic" | "initonly"
+	Kind       string   // "atomic" | "initonly" | "calls"
 	Names      []string // initonly: package-level variables and Type.field names
+	Callee     string   // calls: function name or (recv).method as go/ssa prints it without the package
+	Except     string   // calls: a function whose own calls of Callee are not counted
+	Assert     Clause   // calls: what holds of the arguments at every call site
 	TypeName   string
 	Field      string
 	Props      []string
@@ -237,9 +241,16 @@ func constInt(v ssa.Value) (int64, bool) {
 // obligation per listed name: true when no such site exists, false (with the first site in its text) otherwise.
 func (p *Program) runInitOnly(ar *auditRef, all map[*ssa.Function]bool) (obls []*Obligation, errs []string) {
 	a := ar.a
+	allowed := map[string]bool{}
+	for _, n := range strings.Split(a.Except, ";") {
+		if n = strings.TrimSpace(n); n != "" {
+			allowed[n] = true
+		}
+	}
 	var fns []*ssa.Function
 	for fn := range all {
-		if len(fn.Blocks) > 0 && fnTypesPkg(fn) == ar.pkg.Pkg && fn.Synthetic != "package initializer" {
+		if len(fn.Blocks) > 0 && fnTypesPkg(fn) == ar.pkg.Pkg && fn.Synthetic != "package initializer" &&
+			!allowed[strings.TrimPrefix(qualName(fn), ar.pkg.Pkg.Name()+".")] {
 			fns = append(fns, fn)
 		}
 	}
@@ -336,6 +347,98 @@ func (p *Program) runInitOnly(ar *auditRef, all map[*ssa.Function]bool) (obls []
 	return obls, errs
 }
 
+// runCallsAudit: `audit calls F assert P`: one obligation per static call of F in the package (P over the
+// arguments: constants where the call passes constants, unconstrained values otherwise), plus one obligation that
+// F is never used as a value (so that there are no other calls).
+func (p *Program) runCallsAudit(ar *auditRef, all map[*ssa.Function]bool) (obls []*Obligation, errs []string) {
+	a := ar.a
+	var target *ssa.Function
+	var fns []*ssa.Function
+	for fn := range all {
+		if fnTypesPkg(fn) != ar.pkg.Pkg {
+			continue
+		}
+		if len(fn.Blocks) > 0 {
+			fns = append(fns, fn)
+		}
+		if strings.TrimPrefix(qualName(fn), ar.pkg.Pkg.Name()+".") == a.Callee {
+			target = fn
+		}
+	}
+	if target == nil {
+		return nil, []string{fmt.Sprintf("%s:%d: audit calls: no function %s in package %s", a.File, a.Line, a.Callee, ar.pkg.Pkg.Name())}
+	}
+	sort.Slice(fns, func(i, j int) bool { return fns[i].String() < fns[j].String() })
+	leaks := ""
+	for _, fn := range fns {
+		k := 0
+		if a.Except != "" && strings.TrimPrefix(qualName(fn), ar.pkg.Pkg.Name()+".") == a.Except {
+			continue
+		}
+		for _, b := range fn.Blocks {
+			for _, in := range b.Instrs {
+				ci, isCall := in.(ssa.CallInstruction)
+				if isCall && ci.Common().StaticCallee() == target {
+					cm := ci.Common()
+					c := NewCtx(ModeInt, p.specs)
+					st := &State{mem: map[string]string{}, epoch: "0", ctr: "ctr0"}
+					c.declare("ctr0", "Int")
+					env := &Env{c: c, pkg: ar.pkg.Pkg, vars: map[string]Val{}, mem: st.memFn(c)}
+					var shown []string
+					for i, arg := range cm.Args {
+						name := fmt.Sprintf("arg%d", i)
+						if kc, ok := arg.(*ssa.Const); ok && kc.Value != nil && kc.Value.Kind() == constant.Int && isInt(kc.Type().Underlying()) {
+							if v, ok := new(big.Int).SetString(kc.Value.ExactString(), 10); ok {
+								env.vars[name] = Val{T: kc.Type(), S: c.lit(kc.Type(), v)}
+								shown = append(shown, v.String())
+								continue
+							}
+						}
+						srt := c.sortOf(arg.Type())
+						if strings.Contains(srt, "?") {
+							shown = append(shown, "_")
+							continue
+						}
+						n := c.fresh(name)
+						c.declare(n, srt)
+						env.vars[name] = Val{T: arg.Type(), S: n}
+						shown = append(shown, "_")
+					}
+					goal, err := env.ElabBool(a.Assert.E)
+					if err != nil {
+						errs = append(errs, fmt.Sprintf("%s:%d: audit calls %s at %s: %v", a.File, a.Line, a.Callee, p.prog.Fset.Position(in.Pos()), err))
+						continue
+					}
+					kind := "calls " + a.Callee
+					if a.Assert.Tag != "" {
+						kind += " " + a.Assert.Tag
+					}
+					obls = append(obls, &Obligation{Name: fmt.Sprintf("%s/%s#%d", qualName(fn), kind, k), Fn: qualName(fn), Kind: kind,
+						Text: fmt.Sprintf("%s(%s): %s", a.Callee, strings.Join(shown, ", "), a.Assert.Text), Props: a.Props, ctx: c, pos: 0, pc: "true", goal: goal})
+					k++
+					continue
+				}
+				// any other use of the function as a value
+				for _, op := range in.Operands(nil) {
+					if *op == ssa.Value(target) {
+						if isCall && ci.Common().Value == ssa.Value(target) {
+							continue
+						}
+						leaks = fmt.Sprintf("%s uses %s as a value at %s", qualName(fn), a.Callee, p.prog.Fset.Position(in.Pos()))
+					}
+				}
+			}
+		}
+	}
+	c := NewCtx(ModeInt, p.specs)
+	goal, text := "true", fmt.Sprintf("%s is only ever called directly (%d functions scanned)", a.Callee, len(fns))
+	if leaks != "" {
+		goal, text = "false", text+": "+leaks
+	}
+	obls = append(obls, &Obligation{Name: fmt.Sprintf("%s/calls %s only-direct#0", ar.pkg.Pkg.Name(), a.Callee), Fn: ar.pkg.Pkg.Name() + "." + a.Callee, Kind: "calls " + a.Callee, Text: text, Props: a.Props, ctx: c, pos: 0, pc: "true", goal: goal})
+	return obls, errs
+}
+
 // runAudits: the package-wide scan. Returns syntactic obligations (goal true/false) and errors.
 func (p *Program) runAudits(prop string) (obls []*Obligation, errs []string) {
 	if len(p.audits) == 0 {
@@ -349,6 +452,11 @@ func (p *Program) runAudits(prop string) (obls []*Obligation, errs []string) {
 		}
 		if a.Kind == "initonly" {
 			o, es := p.runInitOnly(ar, all)
+			obls, errs = append(obls, o...), append(errs, es...)
+			continue
+		}
+		if a.Kind == "calls" {
+			o, es := p.runCallsAudit(ar, all)
 			obls, errs = append(obls, o...), append(errs, es...)
 			continue
 		}
